@@ -160,14 +160,49 @@ def divform(e, var, K, region=None):
     return (s_out, s_in, c)
 
 
-def same_on(f, g, lo, hi, K):
+def members(P, signed, lo, hi, k):
+    """members of the operand set P (a union of intervals, possibly one residue class) covering two periods at each end
+    and in the middle of [lo, hi]"""
+    ivs = P.signed_intervals() if signed else sorted(P.ivs)
+    out = set()
+    def take(seq, limit):
+        n = 0
+        for a, b in seq:
+            for x in (range(a, b + 1) if seq is ivs else range(b, a - 1, -1)):
+                out.add(x)
+                n += 1
+                if n >= limit:
+                    return
+    take(ivs, 2 * k + 2)
+    take(list(reversed(ivs)), 2 * k + 2)
+    mid = (lo + hi) // 2
+    n = 0
+    for a, b in ivs:
+        if b < mid:
+            continue
+        for x in range(max(a, mid), b + 1):
+            out.add(x)
+            n += 1
+            if n >= 2 * k + 2:
+                break
+        if n >= 2 * k + 2:
+            break
+    return out
+
+
+def same_on(f, g, lo, hi, K, P=None, signed=True):
     """are s_out*trunc((s_in*a+c)/k) forms f and g the same function of a on [lo,hi] (one sign region)?
-    Decided on one full residue period at each end and in the middle: both are quasi-periodic with period k."""
+    Decided on one full residue period at each end and in the middle: both are quasi-periodic with period k.
+    With P given, only members of P are compared (LLVM may split a region by residue class: a leaf is then only
+    claimed for the residues it is reached with)."""
     k = abs(K)
     def val(h, a):
         s_out, s_in, c = h
         return s_out * tdiv(s_in * a + c, k)
     pts = set()
+    if P is not None and k <= 50000:
+        pts = members(P, signed, lo, hi, k)
+        return all(val(f, a) == val(g, a) for a in pts), next((a for a in sorted(pts) if val(f, a) != val(g, a)), None)
     if k <= 50000:
         for base in (lo, hi - 2 * k, (lo + hi) // 2):
             for a in range(max(lo, base), min(hi, base + 2 * k) + 1):
@@ -328,7 +363,7 @@ def run(tier, seed, work):
                     verdict = "undecided" if verdict == "proved" else verdict
                     details.append("dividend in %s: leaf %s is not of the bias-then-divide family" % (P.describe(A.signed), gate.show(leaf)[:100]))
                     continue
-                ok, wit = same_on(df, cf[rn], lo, hi, K)
+                ok, wit = same_on(df, cf[rn], lo, hi, K, P, A.signed)
                 if not ok:
                     verdict = "refuted"
                     details.append("dividend in %s: the kernel computes %s, i.e. %d * trunc((%d*a %+d) / %d); %s rounding of a/%d demands %d * trunc((%d*a %+d) / %d) — they differ e.g. around a = %d" % (
